@@ -137,11 +137,46 @@ def cross_check(eng, ob, timeout_ms):
     return out
 
 
-def run_items(items, jobs=None):
+def _died(item, why):
+    key, ctx, alias, _, _ = item
+    return {"key": key, "ctx": ctx, "alias": alias, "file": None, "span": None, "paths": 0, "unsupported": None,
+            "error": why, "trusted": False, "vacuous": False, "inlined": [], "lib_used": [], "callees": [],
+            "obligations": [], "wall": 0.0}
+
+
+def run_items(items, jobs=None, item_timeout=3600):
+    """every item in its own task of a process pool.  A worker that dies (solver crash, out of memory) breaks the pool:
+    the unfinished items are then re-run one by one in fresh single-worker pools, so that a crash costs one item (a
+    checker error for that function), never a hang."""
+    from concurrent.futures import ProcessPoolExecutor, wait
+    from concurrent.futures.process import BrokenProcessPool
     jobs = jobs or min(16, max(1, len(items)))
     if len(items) <= 1 or jobs == 1:
         _init()
         return [_work(it) for it in items]
     ctx = mp.get_context("spawn")
-    with ctx.Pool(jobs, initializer=_init) as pool:
-        return pool.map(_work, items, chunksize=1)
+    results = [None] * len(items)
+    pending = list(range(len(items)))
+    try:
+        with ProcessPoolExecutor(max_workers=jobs, mp_context=ctx, initializer=_init) as ex:
+            futs = {ex.submit(_work, items[i]): i for i in pending}
+            done, not_done = wait(futs, timeout=item_timeout)
+            for f in done:
+                try:
+                    results[futs[f]] = f.result()
+                except BrokenProcessPool:
+                    pass
+                except Exception as e:   # noqa: BLE001
+                    results[futs[f]] = _died(items[futs[f]], f"worker raised {type(e).__name__}: {e}")
+            for f in not_done:
+                f.cancel()
+                results[futs[f]] = _died(items[futs[f]], f"no result within {item_timeout}s")
+    except BrokenProcessPool:
+        pass
+    for i in [i for i in range(len(items)) if results[i] is None]:
+        try:
+            with ProcessPoolExecutor(max_workers=1, mp_context=ctx, initializer=_init) as ex:
+                results[i] = ex.submit(_work, items[i]).result(timeout=item_timeout)
+        except Exception as e:   # noqa: BLE001
+            results[i] = _died(items[i], f"worker process died or timed out ({type(e).__name__}: {e})")
+    return results
